@@ -244,8 +244,8 @@ def _case_sides(case):
 
 
 def pattern_first_n_tuple_on_empty(case, observed=None):
-    """first_n_three_layer_P / first_n_target_proportion_R return the 3-tuple (0., 0., 0.) instead of the
-    documented single float when either annotation has no onsets."""
+    """first_n_three_layer_P / first_n_target_proportion_R returned the 3-tuple (0., 0., 0.) instead of the
+    documented single float when either annotation has no onsets (DESIGN section 10 row 2; fixed in /repo 4c3ef5b)."""
     if case.get("func") not in ("pattern.first_n_three_layer_P", "pattern.first_n_target_proportion_R"):
         return False
     r, e = _case_sides(case)
@@ -268,8 +268,10 @@ def pattern_standard_overcount(case, observed=None):
 
 # ---------------------------------------------------------------------------------- fixtures
 FIXTURE_DIR = "/repo/tests/data/pattern"
-# recorded values that encode a known defect (DESIGN section 10 row 1): pattern.evaluate passes `thresh`, which
-# occurrence_FPR does not accept, so the recorded *_occ.5 entries were computed at the default 0.75
+# recorded values that encode a known defect (DESIGN section 10 row 1, fixed in /repo 0e89831): pattern.evaluate
+# used to pass `thresh`, which occurrence_FPR does not accept, so the recorded *_occ.5 entries of output*.json were
+# computed at the default 0.75.  For these keys (only) a recorded value that differs from the model at c = .5 must
+# equal the model at c = .75; such keys are counted in fixture_check.defect_encoded.
 DEFECT_KEYS = {"F_occ.5": "evaluate() forces kwargs['thresh'] but occurrence_FPR takes 'thres' (computed at .75)",
                "P_occ.5": "same", "R_occ.5": "same"}
 
